@@ -102,7 +102,12 @@ def make_gen(m, rng):
                 c = w["classes"][t[1]]
                 return ("I", t[1], [(f["name"], f["dflt"] if "dflt" in f and r.random() < 0.5
                                      else self.value(w, f["ty"], depth - 1)) for f in c["fields"]])
-            return super().value(w, t, depth)
+            v = super().value(w, t, depth)
+            if not isinstance(t, str) and t[0] == "counter":
+                # Counter equality ignores zero counts: with omit_if_default a Counter "equal" to its default is
+                # legitimately replaced by it; zero counts are kept out so that the strict comparison stays meaningful
+                v = ("d", [(k, c if c[1] != 0 else ("i", 1)) for k, c in v[1]])
+            return v
 
     return GX(rng)
 
